@@ -158,8 +158,17 @@ def get_newly_imported_items(
     gatherer = GatherImportsVisitor(context)
     source_module.visit(gatherer)
     source_imports = list(gatherer.symbol_mapping.values())
+    # Names from a module the source star-imports are already available there
+    # (libcst does not record them individually in symbol_mapping).
+    star_imported_modules = {
+        module for module, objs in gatherer.object_mapping.items() if "*" in objs
+    }
 
-    return list(set(stub_imports).difference(set(source_imports)))
+    return [
+        item
+        for item in set(stub_imports).difference(set(source_imports))
+        if not (item.obj_name and item.module_name in star_imported_modules)
+    ]
 
 
 def apply_stub_using_libcst(
